@@ -364,10 +364,10 @@ class Scan(Generic[Carry, Y], GenerativeFunction[tuple[Carry, Y]]):
         # value in the next slice, but we just disallow that for now for simplicity.
         assert Diff.static_check_no_change(retdiff)
 
-        idx_array = jnp.arange(trace.scan_length)
         slice_scanned_out = Diff.tree_primal(scanned_retdiff)
+        # Row `idx` of the stacked outputs (the leading axis, whatever the shape of one output).
         new_scanned_out: Y = jtu.tree_map(
-            lambda v1, v2: jnp.where(idx_array == idx, v1, v2),
+            lambda v1, v2: v2.at[idx].set(v1),
             slice_scanned_out,
             old_scanned_out,
         )
